@@ -7,6 +7,7 @@ RULE = ("montgomery_reduce: domain edges +-2^31*q +-{0,1,2}, k*2^32+{-1,0,1}, va
         "2^31-2^22-{2,1,0,-1}, 2^31-1, k*2^23-2^22+{-1,0,1}, multiples of q, random i32; caddq: -q..q edges, 0, random, "
         "and (thorough) every a in (-q,q). A case is non-trivial when it lies within 2 of a domain edge, a wrap "
         "boundary or a multiple of q, or is out of domain (panic expected); distinct = distinct (fn,input).")
+SOURCE_TIE = "kernels"   # C14/C15 are also stated about the translated text of reduce.rs / rounding*.rs (GenK.v)
 ASSUMPTIONS = ["i64/i32 input spaces are sampled (boundaries enumerated); the theorems cover them entirely for the model"]
 TIMEOUT = {"quick": 300, "thorough": 1500}
 
